@@ -80,12 +80,13 @@ LoggedJobs(line) ==
     IN [nm \in {<<j.k, j.n>> : j \in S} |->
             [time |-> IF nm[1] = "prepepoch" THEN 0 ELSE rec(nm).t,
              vals |-> IF nm[1] = "early" THEN {} ELSE SeqToSet(rec(nm).vals)]]
-\* the property leaves the instant of prepare-for-epoch open: any time inside the preceding epoch
+\* the property leaves the instant of prepare-for-epoch open: any time from the start of the
+\* preceding epoch up to the start of the epoch it prepares
 PrepTimesOk(line) ==
     \A i \in 1..Len(line.jobs) : line.jobs[i].k = "prepepoch" =>
         /\ line.jobs[i].n >= 1
         /\ StartOfEpoch(C, line.jobs[i].n - 1) <= line.jobs[i].t
-        /\ line.jobs[i].t < StartOfEpoch(C, line.jobs[i].n)
+        /\ line.jobs[i].t <= StartOfEpoch(C, line.jobs[i].n)
 NoDuplicateNames(line) == Cardinality({<<j.k, j.n>> : j \in SeqToSet(line.jobs)}) = Len(line.jobs)
 LoggedDone(line) ==
     LET recs == [i \in 1..Len(line.done) |-> [k |-> line.done[i].k, n |-> line.done[i].n, vals |-> SeqToSet(line.done[i].vals)]]
